@@ -1661,9 +1661,12 @@ end ExpectCalc
   NOW.  Every definition is proved equal to the function of Model/Calc.lean it
   corresponds to, for all arguments and for every `Ops` (so for `exactOps`, which
   the theorems are about, and for `floatOps`, which the differential run uses);
-  `sub` is the currency table (`currency.Code.Def().Subunits`).  Not translated
-  (they stay on the shape pins of `ExpectCalc`): calculateLines, calculateLine,
-  calculateSubLine, calculateLineItemPrice, bill.calculate itself. -/
+  `sub` is the currency table (`currency.Code.Def().Subunits`).  The four
+  error-returning functions (calculateLineItemPrice, calculateSubLine,
+  calculateLine, calculateLines) are Except-valued (B20) and proved equal to the
+  model too (B20, B22; the two line functions for lines without substituted
+  sub-lines, which the model does not have).  Not translated (it stays on the
+  shape pins of `ExpectCalc` and the differential run): bill.calculate itself. -/
 namespace Src
 open GoblVerif.Generated GoblVerif.CalcSrc GoblVerif.Proofs.BillCalcSrc
 
@@ -1961,6 +1964,68 @@ theorem src_calculateSubLine (o : Ops) (sub : String → Nat) (sl : BillCalcSrc.
       = calcSubLine o cur (sub cur) rates (ruleOf rr) (toSubLine (toItem sub cur) sl) :=
   calculateSubLine_eq o sub sl cur rates rr hr
 
+/-- `calculateLine` = `Calc.calcLine`, for every operation set, currency table, document currency,
+    rates and rounding-rule key, and every line WITHOUT SUBSTITUTED SUB-LINES (`hs`): no item /
+    breakdown (each sub-line through `calculateSubLine`, the first error ends everything; the item
+    price replaced by the re-scaled sum of the sub-line totals when one exists) / no price / item-price
+    error / price raised to the currency's decimals (+2 under `precise`), sum rounded by the rule,
+    discounts, charges.  The hypothesis is needed: the model has no substituted sub-lines, and an
+    exchange-rate error inside one makes Go fail (`substituted: (i: …)`) where the model goes on.
+    With it the loop over `l.Substituted` does not run; what it writes otherwise (normalised
+    sub-lines, not read by any total) is outside every statement here. -/
+theorem src_calculateLine (o : Ops) (sub : String → Nat) (l : BillCalcSrc.Line) (cur : String)
+    (rates : List XRate) (rr : String) (hr : ∀ r ∈ rates, r.toSub = sub r.to) (hs : l.Substituted = []) :
+    toModel (toLine (toItem sub cur)) (BillCalcSrc.calculateLine o sub l cur rates rr)
+      = calcLine o cur (sub cur) rates (ruleOf rr) (toLine (toItem sub cur) l) :=
+  calculateLine_eq o sub l cur rates rr hr hs
+
+/-- the regenerated `calculateLine` splits exactly as the proof reads it: without breakdown it is
+    the finishing part, with one it is the breakdown loop followed by the finishing part on the
+    line `afterBd` describes (item price replaced when a sub-line has a total) -/
+theorem src_calculateLine_shape (o : Ops) (sub : String → Nat) (l : BillCalcSrc.Line) (it : BillCalcSrc.Item) (cur : String)
+    (rates : List XRate) (rr : String) (hi : l.Item = some it) (hs : l.Substituted = []) :
+    (l.Breakdown = [] → BillCalcSrc.calculateLine o sub l cur rates rr = lineFinish o sub l cur rates rr) ∧
+    (l.Breakdown ≠ [] → BillCalcSrc.calculateLine o sub l cur rates rr = (do
+      let s ← forIn l.Breakdown.zipIdx ((⟨0, sub cur⟩ : Amount), false, ([] : List BillCalcSrc.SubLine)) (bdBody o sub cur rates rr)
+      lineFinish o sub (afterBd o sub cur l s) cur rates rr)) :=
+  ⟨calculateLine_nil o sub l it cur rates rr hi hs, calculateLine_cons o sub l it cur rates rr hi hs⟩
+
+/-- `hs` and `hr` are satisfiable by a line that exercises the interesting branches: a USD item
+    on a EUR document with a two-row breakdown (one row converted by a rate), a discount and a
+    charge; and the regenerated definition computes on it: 2 × (1.00 EUR + 0.90 EUR) − 10 % + 0.50 -/
+def srcExampleLine : BillCalcSrc.Line :=
+  { Quantity := ⟨2, 0⟩, Item := some ⟨"USD", some ⟨500, 2⟩, []⟩,
+    Breakdown := [⟨⟨1, 0⟩, some ⟨"", some ⟨100, 2⟩, []⟩, none, [], [], none⟩,
+                  ⟨⟨1, 0⟩, some ⟨"USD", some ⟨100, 2⟩, []⟩, none, [], [], none⟩],
+    Sum := none, Discounts := [⟨none, some ⟨⟨10, 2⟩⟩, ⟨0, 0⟩⟩], Charges := [⟨none, none, ⟨50, 2⟩, none, none⟩],
+    Taxes := [], Total := none, Substituted := [] }
+
+example : srcExampleLine.Substituted = [] ∧ srcExampleLine.Breakdown ≠ [] ∧
+    (∀ r ∈ [(⟨"USD", "EUR", 2, ⟨9, 1⟩⟩ : XRate)], r.toSub = (fun _ => 2) r.to) ∧
+    ((BillCalcSrc.calculateLine exactOps (fun _ => 2) srcExampleLine "EUR" [⟨"USD", "EUR", 2, ⟨9, 1⟩⟩] "currency").toOption.map
+      (fun l => (l.Item.bind (·.Price), l.Item.map (·.Currency), l.Sum, l.Total))) =
+      some (some ⟨190, 2⟩, some "EUR", some ⟨380, 2⟩, some ⟨392, 2⟩) ∧
+    -- a missing rate inside the breakdown: the error, nested under its place
+    BillCalcSrc.calculateLine exactOps (fun _ => 2) srcExampleLine "EUR" [] "currency" =
+      .error (.at "breakdown" (.at "1" (.msg noRateFormat))) := by
+  decide +kernel
+
+/-- `calculateLines` = `Calc.calcLines` for lines without substituted sub-lines: every line through
+    `calculateLine` in order, the first error ends everything.  (`l.Index = i + 1` is a dropped
+    write: `Index` is not represented, see `assumptions_BillCalcSrc_as_reviewed`.) -/
+theorem src_calculateLines (o : Ops) (sub : String → Nat) (ls : List BillCalcSrc.Line) (cur : String)
+    (rates : List XRate) (rr : String) (hr : ∀ r ∈ rates, r.toSub = sub r.to) (hs : ∀ l ∈ ls, l.Substituted = []) :
+    toModel (List.map (toLine (toItem sub cur))) (BillCalcSrc.calculateLines o sub ls cur rates rr)
+      = calcLines o cur (sub cur) rates (ruleOf rr) (ls.map (toLine (toItem sub cur))) :=
+  calculateLines_eq o sub ls cur rates rr hr hs
+
+example : (∀ l ∈ [srcExampleLine, srcExampleLine], l.Substituted = []) ∧
+    ((BillCalcSrc.calculateLines exactOps (fun _ => 2) [srcExampleLine, srcExampleLine] "EUR" [⟨"USD", "EUR", 2, ⟨9, 1⟩⟩] "precise").toOption.map
+      (fun ls => ls.map (·.Total))) = some [some ⟨39200, 4⟩, some ⟨39200, 4⟩] ∧
+    BillCalcSrc.calculateLines exactOps (fun _ => 2) [{ srcExampleLine with Breakdown := [] }, srcExampleLine] "EUR" [] "precise" =
+      .error (.at "0" (.at "item" (.msg noRateFormat))) := by
+  decide +kernel
+
 /-! ### headline statements of C01 / C03 over the regenerated definitions -/
 
 /-- C01 "sums never round", about the code: the regenerated `calculateLineSum` is
@@ -1972,6 +2037,39 @@ theorem spec_of_the_source_line_sum (sub : String → Nat) (ls : List BillCalcSr
   refine ⟨?_, ?_⟩
   · rw [foldl_accum_toRat]; simp [Amount.toRat]
   · exact foldl_accum_exp_ge _ ⟨0, sub cur⟩
+
+/-- what an `.ok` result of the regenerated `calculateLine` says about the model (from `src_calculateLine`) -/
+theorem src_calculateLine_ok (o : Ops) (sub : String → Nat) (l l' : BillCalcSrc.Line) (cur : String)
+    (rates : List XRate) (rr : String) (hr : ∀ r ∈ rates, r.toSub = sub r.to) (hs : l.Substituted = [])
+    (h : BillCalcSrc.calculateLine o sub l cur rates rr = .ok l') :
+    calcLine o cur (sub cur) rates (ruleOf rr) (toLine (toItem sub cur) l) = .ok (toLine (toItem sub cur) l') := by
+  rw [← src_calculateLine o sub l cur rates rr hr hs, h]; rfl
+
+/-- C01 headline "the line sum is ONE rounding of price × quantity", about the code: for a plain
+    line (item priced in the document currency, no breakdown, no substituted sub-lines) the
+    regenerated `calculateLine` under `precise` leaves a sum with at least currency + 2 decimals
+    whose value is the exact product price × quantity rounded half away from zero exactly once -/
+theorem spec_of_the_source_line_sum_precise (sub : String → Nat) (l l' : BillCalcSrc.Line) (it : BillCalcSrc.Item)
+    (p : Amount) (cur : String) (rates : List XRate) (hr : ∀ r ∈ rates, r.toSub = sub r.to)
+    (hit : l.Item = some it) (hcur : it.Currency = "") (hp : it.Price = some p) (hbd : l.Breakdown = [])
+    (hs : l.Substituted = []) (h : BillCalcSrc.calculateLine exactOps sub l cur rates "precise" = .ok l') :
+    ∃ s, l'.Sum = some s ∧ sub cur + 2 ≤ s.exp ∧ s.value = roundTo s.exp (p.toRat * l.Quantity.toRat) := by
+  have hm := src_calculateLine_ok exactOps sub l l' cur rates "precise" hr hs h
+  have hrule : ruleOf "precise" = .precise := by decide
+  rw [hrule] at hm
+  exact line_sum_precise cur (sub cur) rates (toLine (toItem sub cur) l) (toLine (toItem sub cur) l')
+    (toItem sub cur it) p (by simp [toLine, hit]) hcur hp (by simp [toLine, hbd]) hm
+
+/-- the hypotheses are satisfiable and the code computes: 3 × 33.335 EUR under `precise` is 100.0050
+    (four decimals, no rounding yet), under `currency` 100.01 (rounded once, half away from zero) -/
+def srcPlainLine : BillCalcSrc.Line :=
+  { Quantity := ⟨3, 0⟩, Item := some ⟨"", some ⟨33335, 3⟩, []⟩, Breakdown := [], Sum := none,
+    Discounts := [], Charges := [], Taxes := [], Total := none, Substituted := [] }
+
+example :
+    ((BillCalcSrc.calculateLine exactOps (fun _ => 2) srcPlainLine "EUR" [] "precise").toOption.map (·.Sum)) = some (some ⟨1000050, 4⟩) ∧
+    ((BillCalcSrc.calculateLine exactOps (fun _ => 2) srcPlainLine "EUR" [] "currency").toOption.map (·.Sum)) = some (some ⟨10001, 2⟩) := by
+  decide +kernel
 
 /-- C01 "presentation", about the code: after the regenerated `(*Totals).round`
     every presented total has exactly the currency's number of decimals -/
